@@ -185,6 +185,9 @@ impl Scripted {
         for c in cmds.as_array().unwrap() {
             let d = tick() * c["d"].as_u64().unwrap_or(0) as u32;
             let mk = new_message;
+            if c["g"] == "at" {
+                late_wire();
+            }
             match c["c"].as_str().unwrap() {
                 // every module but a uses the other spellings of the same calls: absolute times (send_at / schedule_at /
                 // shutdow_and_restart_at) and a gate given as (name, index) resp. as GateRef
@@ -248,6 +251,20 @@ impl Scripted {
                 other => panic!("unknown command {other}"),
             }
         }
+    }
+}
+
+/// wiring during the run: the new link gets a channel made from the template that a.out carries; whatever that channel is
+/// doing right now, the new one starts idle, with the same metrics
+fn late_wire() {
+    if let Some(ct) = LATE_CT.with(|c| c.borrow_mut().take()) {
+        let me = current();
+        let template = me.gate("out", 0).and_then(|g| g.channel()).expect("a.out carries a channel");
+        let o2 = me.gate("o2", 0).expect("gate o2 exists");
+        o2.clone().connect(ct, Some(template));
+        let ch = o2.channel().expect("the new link carries a channel");
+        WEAK_CHANS.with(|w| w.borrow_mut().push(std::sync::Arc::downgrade(&ch)));
+        ch.attach_probe(TxProbe(2));
     }
 }
 
@@ -383,6 +400,9 @@ pub struct NetCfg {
     pub end_emit: bool,
     /// messages put into the event set from outside before the run
     pub inject: Vec<Value>,
+    /// T3 only: a.o2 -> c.t is not wired at build time; module a wires it during the run, right before its first use,
+    /// with the live channel of a.out (possibly transmitting at that moment) as the template
+    pub late_wire: bool,
 }
 
 impl NetCfg {
@@ -400,6 +420,7 @@ impl NetCfg {
             end_emit: v["end_emit"].as_bool().unwrap_or(false),
             endfail: v["endfail"].as_array().map(|a| a.iter().map(|x| x.as_str().unwrap().to_string()).collect()).unwrap_or_default(),
             inject: v["inject"].as_array().cloned().unwrap_or_default(),
+            late_wire: v["late_wire"].as_bool().unwrap_or(false),
         }
     }
 }
@@ -422,6 +443,8 @@ fn channel(cfg: &NetCfg, id: &str) -> Option<des::net::channel::ChannelRef> {
 }
 
 thread_local! {
+    /// the gate c.t while the link a.o2 -> c.t still has to be wired during the run
+    static LATE_CT: RefCell<Option<GateRef>> = const { RefCell::new(None) };
     static WEAK_GATES: RefCell<Vec<std::sync::Weak<des::net::gate::Gate>>> = const { RefCell::new(Vec::new()) };
     static WEAK_CHANS: RefCell<Vec<std::sync::Weak<des::net::channel::Channel>>> = const { RefCell::new(Vec::new()) };
 }
@@ -465,6 +488,7 @@ pub fn run_scenario_stop(cfg: &NetCfg, scripts: &Value, seed: u64, stop: &str) -
     DROPPED_TWICE.with(|d| *d.borrow_mut() = 0);
     WEAK_GATES.with(|w| w.borrow_mut().clear());
     WEAK_CHANS.with(|w| w.borrow_mut().clear());
+    LATE_CT.with(|c| *c.borrow_mut() = None);
     let r = catch_unwind(AssertUnwindSafe(|| {
         let mut sim = Sim::new(());
         let any_stack = cfg.mods.iter().any(|m| cfg.stack[m].as_u64().unwrap_or(0) > 0);
@@ -496,11 +520,15 @@ pub fn run_scenario_stop(cfg: &NetCfg, scripts: &Value, seed: u64, stop: &str) -
                 ct.connect(i2, channel(cfg, "2"));
             } else {
                 // the channel lies before the transit gate
-                o2.clone().connect(ct.clone(), channel(cfg, "2"));
-                ct.connect(i2, None);
-                if let Some(ch) = o2.channel() {
-                    ch.attach_probe(TxProbe(2));
+                if cfg.late_wire {
+                    LATE_CT.with(|c| *c.borrow_mut() = Some(ct.clone()));
+                } else {
+                    o2.clone().connect(ct.clone(), channel(cfg, "2"));
+                    if let Some(ch) = o2.channel() {
+                        ch.attach_probe(TxProbe(2));
+                    }
                 }
+                ct.connect(i2, None);
             }
         }
         // a ring of four transit gates (reference cycle among gates, never used for traffic)
@@ -588,6 +616,8 @@ pub fn run_scenario_stop(cfg: &NetCfg, scripts: &Value, seed: u64, stop: &str) -
         let cur = out.dead.get(&m).copied().unwrap_or("no");
         out.dead.insert(m, if again || cur == "revived" { "revived" } else { "dead" });
     }
+    // the harness's own handle on c.t, if the link was never wired
+    LATE_CT.with(|c| *c.borrow_mut() = None);
     out.live_after_drop = LIVE.with(|l| *l.borrow());
     out.dropped_twice = DROPPED_TWICE.with(|d| *d.borrow());
     out.gates_alive = WEAK_GATES.with(|w| w.borrow().iter().filter(|g| g.strong_count() > 0).count());
